@@ -185,7 +185,7 @@ func (g *gen) newEnum(f *File, parent *Message) string {
 	e := &Enum{Name: name}
 	prefix := strings.ToUpper(name) + "_"
 	n := g.intn(1, 4, "nvals")
-	custom := g.p.feat("enum_value") && g.bool("enumcustom")
+	custom := g.p.feat("enum_value") && g.bool("enumcustom") && !g.avoid("enum_value_custom")
 	e.Values = append(e.Values, &EnumValue{Name: prefix + "UNSPECIFIED", Number: 0})
 	seen := map[string]bool{}
 	usedCustom := map[string]bool{}
@@ -384,7 +384,7 @@ func (g *gen) plainField(c *fieldCtx) *Field {
 
 // childCandidates returns the message types usable as a plain child field.
 func (g *gen) childCandidates() []string {
-	if g.p.AnnotatedNested {
+	if g.p.AnnotatedNested && !g.avoid("annotated_nested") {
 		return g.msgs
 	}
 	var out []string
@@ -477,8 +477,8 @@ func (g *gen) addOneof(m *Message, fq string, c *fieldCtx, disc, flat bool) *One
 // For flattened use its field JSON names must not collide with the parent's; we create a fresh
 // message with distinctive field names.
 func (g *gen) variantMessage(fresh bool) string {
-	if !fresh && len(g.msgs) > 0 && g.bool("reusevariant") {
-		return pick(g, g.msgs, "variantref")
+	if cands := g.childCandidates(); !fresh && len(cands) > 0 && g.bool("reusevariant") {
+		return pick(g, cands, "variantref")
 	}
 	name := g.msgName()
 	m := &Message{Name: name}
@@ -486,14 +486,19 @@ func (g *gen) variantMessage(fresh bool) string {
 	g.msgDefs[fq] = m
 	g.s.Files[0].Messages = append(g.s.Files[0].Messages, m)
 	used := map[string]bool{}
+	simple := fresh && g.avoid("child_encoding_json")
 	c := &fieldCtx{used: used, multiOK: g.p.MultiWordChild, noMsg: !g.p.AnnotatedNested}
 	n := g.intn(1, 3, "nchild")
 	for i := 0; i < n; i++ {
 		f := g.plainField(c)
+		if simple {
+			// children that encoding/json happens to encode like proto3 JSON
+			f.Card, f.MapKey, f.TypeRef = Singular, "", ""
+			f.Kind = pick(g, []Kind{KString, KBool, KInt32, KUint32, KSint32, KString}, "simplekind")
+		}
 		// distinctive names: prefix with the message name so flattening never collides
 		f.Name = strings.ToLower(name) + "_" + f.Name
-		if !g.p.MultiWordChild {
-			f.Name = strings.ToLower(name) + f.Name
+		if !g.p.MultiWordChild || simple {
 			f.Name = strings.ReplaceAll(f.Name, "_", "")
 		}
 		m.Fields = append(m.Fields, f)
@@ -530,8 +535,36 @@ func (g *gen) annotate(m *Message, fq string, c *fieldCtx) {
 			if !p.MultiFeature || structural(feat) || structural(g.feature[fq]) {
 				return false
 			}
+			if g.avoid("multi_feature") {
+				return false
+			}
 		}
 		return true
+	}
+	// choose one primary feature for this message uniformly, so that every feature gets a
+	// fair share of messages; further features only join in multi-feature mode
+	var enabled []string
+	for _, f := range []string{"int64", "nullable", "empty", "timestamp", "bytes", "enum_number", "enum_value", "flatten", "oneof"} {
+		switch f {
+		case "oneof":
+			if p.feat("oneof_disc") || p.feat("oneof_flat") {
+				enabled = append(enabled, f)
+			}
+		default:
+			if p.feat(f) {
+				enabled = append(enabled, f)
+			}
+		}
+	}
+	primary := ""
+	if len(enabled) > 0 && !g.oneIn(4, "noprimary") {
+		primary = pick(g, enabled, "primary")
+	}
+	want := func(f string) bool {
+		if primary == f {
+			return true
+		}
+		return p.MultiFeature && g.oneIn(4, "extra:"+f)
 	}
 	addField := func(k Kind, ref string, card Card) *Field {
 		f := &Field{Name: g.fieldName(c.used, c.multiOK), Number: g.nextNum(c), Kind: k, TypeRef: ref, Card: card}
@@ -556,13 +589,16 @@ func (g *gen) annotate(m *Message, fq string, c *fieldCtx) {
 		}
 		return Singular
 	}
-	if can("int64") && g.oneIn(2, "f:int64") {
+	if can("int64") && want("int64") {
 		k := pick(g, []Kind{KInt64, KUint64, KSint64, KFixed64, KSfixed64}, "i64kind")
 		card := Singular
 		if p.Repeateds && g.oneIn(3, "i64rep") {
 			card = Repeated
 		} else {
 			card = cardFor(false)
+		}
+		if card == Optional && g.avoid("int64_number_optional") {
+			card = Singular
 		}
 		f := addField(k, "", card)
 		f.EnsureAnn().Int64Encoding = int32(pick(g, []int{2, 2, 2, 1}, "i64enc"))
@@ -571,7 +607,7 @@ func (g *gen) annotate(m *Message, fq string, c *fieldCtx) {
 			g.tagf("int64:%s:%s", k, card)
 		}
 	}
-	if can("nullable") && p.Optionals && g.oneIn(2, "f:nullable") {
+	if can("nullable") && p.Optionals && want("nullable") {
 		k := g.scalarKind()
 		var ref string
 		if p.Enums && len(g.enums) > 0 && g.oneIn(5, "nullenum") {
@@ -582,16 +618,19 @@ func (g *gen) annotate(m *Message, fq string, c *fieldCtx) {
 		mark("nullable")
 		g.tagf("nullable:%s", k)
 	}
-	if can("empty") && g.oneIn(2, "f:empty") {
+	if can("empty") && want("empty") {
 		ref := g.emptyCapableMessage()
 		f := addField(KMessage, ref, Singular)
 		f.EnsureAnn().EmptyBehavior = int32(g.intn(1, 3, "emptyb"))
 		mark("empty")
 		g.tagf("empty:%d", f.Ann.EmptyBehavior)
 	}
-	if can("timestamp") && g.oneIn(2, "f:timestamp") {
+	if can("timestamp") && want("timestamp") {
 		card := cardFor(true)
 		if card == Optional {
+			card = Singular
+		}
+		if card == Repeated && g.avoid("timestamp_format_repeated") {
 			card = Singular
 		}
 		f := addField(KTimestamp, "", card)
@@ -601,8 +640,14 @@ func (g *gen) annotate(m *Message, fq string, c *fieldCtx) {
 		}
 		g.tagf("timestamp:%d:%s", f.Ann.TimestampFormat, card)
 	}
-	if can("bytes") && g.oneIn(2, "f:bytes") {
+	if can("bytes") && want("bytes") {
 		card := cardFor(true)
+		if card == Repeated && g.avoid("bytes_encoding_repeated") {
+			card = Singular
+		}
+		if card == Optional && g.avoid("bytes_encoding_optional") {
+			card = Singular
+		}
 		f := addField(KBytes, "", card)
 		f.EnsureAnn().BytesEncoding = int32(g.intn(1, 5, "bytesenc"))
 		if f.Ann.BytesEncoding != 1 {
@@ -610,7 +655,7 @@ func (g *gen) annotate(m *Message, fq string, c *fieldCtx) {
 		}
 		g.tagf("bytes:%d:%s", f.Ann.BytesEncoding, card)
 	}
-	if p.feat("enum_number") && p.Enums && g.oneIn(2, "f:enumnum") {
+	if p.feat("enum_number") && p.Enums && want("enum_number") {
 		// needs an enum without custom values
 		var plain []string
 		for _, e := range g.enums {
@@ -624,7 +669,7 @@ func (g *gen) annotate(m *Message, fq string, c *fieldCtx) {
 			g.tagf("enum_encoding:%d", f.Ann.EnumEncoding)
 		}
 	}
-	if p.feat("enum_value") && p.Enums && g.oneIn(2, "f:enumval") {
+	if p.feat("enum_value") && p.Enums && want("enum_value") {
 		var custom []string
 		for _, e := range g.enums {
 			if g.enumHasCustom(e) {
@@ -639,7 +684,7 @@ func (g *gen) annotate(m *Message, fq string, c *fieldCtx) {
 			g.tagf("enum_value_field")
 		}
 	}
-	if can("flatten") && g.oneIn(2, "f:flatten") {
+	if can("flatten") && want("flatten") && !g.avoid("flatten") {
 		ref := g.variantMessage(true)
 		f := addField(KMessage, ref, Singular)
 		f.EnsureAnn().Flatten = true
@@ -649,7 +694,7 @@ func (g *gen) annotate(m *Message, fq string, c *fieldCtx) {
 		}
 		mark("flatten")
 	}
-	if (can("oneof_disc") || can("oneof_flat")) && len(m.Oneofs) == 0 && g.oneIn(2, "f:oneof") {
+	if (can("oneof_disc") || can("oneof_flat")) && len(m.Oneofs) == 0 && want("oneof") {
 		flat := can("oneof_flat") && (!can("oneof_disc") || g.bool("oneofflat"))
 		o := g.addOneof(m, fq, c, true, flat)
 		o.Discriminator = pick(g, []string{"type", "kind", "tag_name", "@type"}, "disc")
@@ -668,8 +713,8 @@ func (g *gen) annotate(m *Message, fq string, c *fieldCtx) {
 
 // emptyCapableMessage returns a message type for empty_behavior fields.
 func (g *gen) emptyCapableMessage() string {
-	if len(g.msgs) > 0 && g.bool("reuseempty") {
-		return pick(g, g.msgs, "emptyref")
+	if cands := g.childCandidates(); len(cands) > 0 && g.bool("reuseempty") {
+		return pick(g, cands, "emptyref")
 	}
 	name := g.msgName()
 	m := &Message{Name: name}
@@ -879,7 +924,7 @@ func (g *gen) buildMethod(f *File, s *Service, m *Method, usedRoutes map[string]
 	for i := 0; i < nq; i++ {
 		k := pick(g, URLKinds, "querykind")
 		fl := &Field{Name: g.fieldName(rc.used, true), Number: g.nextNum(rc), Kind: k, Card: Singular}
-		if p.RepeatedQuery && g.oneIn(4, "repquery") {
+		if p.RepeatedQuery && g.oneIn(4, "repquery") && !g.avoid("query_repeated") {
 			fl.Card = Repeated
 			g.tagf("query:repeated")
 		}
@@ -1058,7 +1103,7 @@ func (g *gen) wrapperMessage() string {
 	if g.bool("wrapmsgelem") && len(g.childCandidates()) > 0 {
 		f.Kind, f.TypeRef = KMessage, pick(g, g.childCandidates(), "wrapelem")
 	} else {
-		f.Kind = g.scalarKind()
+		f.Kind = g.unwrapScalarKind()
 	}
 	f.EnsureAnn().Unwrap = true
 	m.Fields = []*Field{f}
@@ -1070,19 +1115,19 @@ func (g *gen) wrapperMessage() string {
 func (g *gen) unwrapRoot(m *Message, fq string) bool {
 	p := g.p
 	switch {
-	case p.feat("unwrap_root_list") && g.oneIn(4, "f:unwrap_root_list"):
+	case p.feat("unwrap_root_list") && g.oneIn(6, "f:unwrap_root_list"):
 		f := &Field{Name: pick(g, []string{"items", "results", "data_points"}, "rootfield"), Number: 1, Card: Repeated}
 		if g.bool("rootmsgelem") && len(g.childCandidates()) > 0 {
 			f.Kind, f.TypeRef = KMessage, pick(g, g.childCandidates(), "rootelem")
 		} else {
-			f.Kind = g.scalarKind()
+			f.Kind = g.unwrapScalarKind()
 		}
 		f.EnsureAnn().Unwrap = true
 		m.Fields = []*Field{f}
 		g.feature[fq] = "unwrap_root_list"
 		g.tagf("feat:unwrap_root_list")
 		return true
-	case p.feat("unwrap_root_map") && g.oneIn(4, "f:unwrap_root_map"):
+	case p.feat("unwrap_root_map") && g.oneIn(5, "f:unwrap_root_map"):
 		f := &Field{Name: pick(g, []string{"entries", "by_key"}, "rootmapfield"), Number: 1, Card: Map, MapKey: KString}
 		if g.oneIn(3, "rootmapkey") {
 			f.MapKey = pick(g, MapKeyKinds, "rootmapkeykind")
@@ -1094,7 +1139,10 @@ func (g *gen) unwrapRoot(m *Message, fq string) bool {
 		case g.bool("rootmapmsg") && len(g.childCandidates()) > 0:
 			f.Kind, f.TypeRef = KMessage, pick(g, g.childCandidates(), "rootmapval")
 		default:
-			f.Kind = g.scalarKind()
+			f.Kind = g.unwrapScalarKind()
+		}
+		if f.Kind == KMessage && f.MapKey != KString && g.avoid("unwrap_root_map_nonstring_key") {
+			f.MapKey = KString
 		}
 		f.EnsureAnn().Unwrap = true
 		m.Fields = []*Field{f}
@@ -1107,10 +1155,13 @@ func (g *gen) unwrapRoot(m *Message, fq string) bool {
 
 // unwrapMapValue optionally adds a map field whose value type is an unwrap wrapper.
 func (g *gen) unwrapMapValue(m *Message, fq string, c *fieldCtx) {
-	if !g.p.feat("unwrap_map_value") || !g.oneIn(3, "f:unwrap_map_value") {
+	if !g.p.feat("unwrap_map_value") || !g.oneIn(2, "f:unwrap_map_value") {
 		return
 	}
-	if g.feature[fq] != "" && !g.p.MultiFeature {
+	if g.feature[fq] != "" && (!g.p.MultiFeature || g.avoid("multi_feature")) {
+		return
+	}
+	if !simpleSiblings(m) && g.avoid("unwrap_container_siblings") {
 		return
 	}
 	f := &Field{Name: g.fieldName(c.used, c.multiOK), Number: g.nextNum(c), Kind: KMessage, TypeRef: g.wrapperMessage(), Card: Map, MapKey: KString}
@@ -1121,4 +1172,28 @@ func (g *gen) unwrapMapValue(m *Message, fq string, c *fieldCtx) {
 		g.feature[fq] += "+unwrap_map_value"
 	}
 	g.tagf("feat:unwrap_map_value")
+}
+
+// simpleSiblings reports whether every field of m is a singular implicit-presence string, bool or
+// 32-bit integer: the only siblings the unwrap map-value container handles like proto3 JSON.
+func simpleSiblings(m *Message) bool {
+	for _, f := range m.Fields {
+		if f.Card != Singular || f.Oneof != "" {
+			return false
+		}
+		switch f.Kind {
+		case KString, KBool, KInt32, KUint32, KSint32, KFixed32, KSfixed32:
+		default:
+			return false
+		}
+	}
+	return true
+}
+
+// unwrapScalarKind draws the element kind of an unwrapped scalar collection.
+func (g *gen) unwrapScalarKind() Kind {
+	if g.avoid("unwrap_scalar_json") {
+		return pick(g, []Kind{KString, KBool, KInt32, KUint32, KSint32, KFixed32, KSfixed32, KBytes, KString}, "unwrapkind")
+	}
+	return g.scalarKind()
 }
